@@ -341,7 +341,7 @@ theorem strict_owner (S : VSchema) (d : Doc) (vars opName) (k : Model.Validate.K
     (h : k ∈ strictErrors S {} d vars opName) :
     (k ∈ statelessKinds ∧ k ∈ (events S {} d).flatMap (stateless S {} d))
     ∨ (k = .argInvalid ∧ k ∈ ruleArgsCorrect S {} vars opName none false (events S {} d))
-    ∨ ((k = .unknownArgDir ∨ k = .unknownArgField) ∧ k ∈ ruleKnownArgs S none (events S {} d))
+    ∨ ((k = .unknownArgDir ∨ k = .unknownArgField) ∧ k ∈ ruleKnownArgs S {} none (events S {} d))
     ∨ (k = .dupArg ∧ k ∈ ruleUniqueArgs [] (events S {} d))
     ∨ (k = .dupVar ∧ k ∈ ruleUniqueVars [] (events S {} d))
     ∨ ((k = .dirMisplaced ∨ k = .unknownDirective) ∧ k ∈ ruleKnownDirs S [] (events S {} d))
@@ -350,12 +350,12 @@ theorem strict_owner (S : VSchema) (d : Doc) (vars opName) (k : Model.Validate.K
     ∨ ((k = .undefVarOp ∨ k = .undefVar) ∧ k ∈ ruleUndefinedVars d (scopeTable none [] (events S {} d)))
     ∨ ((k = .unusedVarOp ∨ k = .unusedVar) ∧ k ∈ ruleUnusedVars d (scopeTable none [] (events S {} d)))
     ∨ (k = .varPosition ∧ k ∈ ruleVarPositions {} d (scopeTable none [] (events S {} d)))
-    ∨ ((k = .conflictFields ∨ k = .conflictArgsLen ∨ k = .conflictArgsVal) ∧ k ∈ ruleOverlap d (events S {} d)) := by
+    ∨ ((k = .conflictFields ∨ k = .conflictArgsLen ∨ k = .conflictArgsVal) ∧ k ∈ ruleOverlap {} d (events S {} d)) := by
   rw [mem_strictErrors] at h
   rcases h with h | h | h | h | h | h | h | h | h | h | h | h
   · exact Or.inl ⟨range_stateless _ _ _ h, h⟩
   · exact Or.inr (Or.inl ⟨range_argsCorrect _ _ _ _ _ _ _ h, h⟩)
-  · exact Or.inr (Or.inr (Or.inl ⟨range_knownArgs _ _ _ _ h, h⟩))
+  · exact Or.inr (Or.inr (Or.inl ⟨range_knownArgs _ _ _ _ _ h, h⟩))
   · exact Or.inr (Or.inr (Or.inr (Or.inl ⟨range_uniqueArgs _ _ _ h, h⟩)))
   · exact Or.inr (Or.inr (Or.inr (Or.inr (Or.inl ⟨range_uniqueVars _ _ _ h, h⟩))))
   · exact Or.inr (Or.inr (Or.inr (Or.inr (Or.inr (Or.inl ⟨range_knownDirs _ _ _ _ h, h⟩)))))
@@ -364,7 +364,7 @@ theorem strict_owner (S : VSchema) (d : Doc) (vars opName) (k : Model.Validate.K
   · exact Or.inr (Or.inr (Or.inr (Or.inr (Or.inr (Or.inr (Or.inr (Or.inr (Or.inl ⟨range_undefinedVars _ _ _ h, h⟩))))))))
   · exact Or.inr (Or.inr (Or.inr (Or.inr (Or.inr (Or.inr (Or.inr (Or.inr (Or.inr (Or.inl ⟨range_unusedVars _ _ _ h, h⟩)))))))))
   · exact Or.inr (Or.inr (Or.inr (Or.inr (Or.inr (Or.inr (Or.inr (Or.inr (Or.inr (Or.inr (Or.inl ⟨range_varPositions _ _ _ _ h, h⟩))))))))))
-  · exact Or.inr (Or.inr (Or.inr (Or.inr (Or.inr (Or.inr (Or.inr (Or.inr (Or.inr (Or.inr (Or.inr ⟨range_overlap _ _ _ h, h⟩))))))))))
+  · exact Or.inr (Or.inr (Or.inr (Or.inr (Or.inr (Or.inr (Or.inr (Or.inr (Or.inr (Or.inr (Or.inr ⟨range_overlap _ _ _ _ h, h⟩))))))))))
 
 section
 variable (S : VSchema) (d : Doc) (vars : List (String × GValue)) (opName : Option String)
@@ -409,7 +409,7 @@ theorem strict_varPosition :
   · intro h; rw [mem_strictErrors]; simp [h]
 
 theorem strict_knownArgs (k : Model.Validate.Kind) (hk : k = .unknownArgDir ∨ k = .unknownArgField) :
-    k ∈ strictErrors S {} d vars opName ↔ k ∈ ruleKnownArgs S none (events S {} d) := by
+    k ∈ strictErrors S {} d vars opName ↔ k ∈ ruleKnownArgs S {} none (events S {} d) := by
   constructor
   · intro h
     rcases strict_owner S d vars opName _ h with ⟨hk', h⟩ | ⟨hk', h⟩ | ⟨hk', h⟩ | ⟨hk', h⟩ | ⟨hk', h⟩ | ⟨hk', h⟩ | ⟨hk', h⟩ | ⟨hk', h⟩ | ⟨hk', h⟩ | ⟨hk', h⟩ | ⟨hk', h⟩ | ⟨hk', h⟩
@@ -425,7 +425,7 @@ theorem strict_argInvalid :
   · intro h; rw [mem_strictErrors]; simp [h]
 
 theorem strict_overlap (k : Model.Validate.Kind) (hk : k = .conflictFields ∨ k = .conflictArgsLen ∨ k = .conflictArgsVal) :
-    k ∈ strictErrors S {} d vars opName ↔ k ∈ ruleOverlap d (events S {} d) := by
+    k ∈ strictErrors S {} d vars opName ↔ k ∈ ruleOverlap {} d (events S {} d) := by
   constructor
   · intro h
     rcases strict_owner S d vars opName _ h with ⟨hk', h⟩ | ⟨hk', h⟩ | ⟨hk', h⟩ | ⟨hk', h⟩ | ⟨hk', h⟩ | ⟨hk', h⟩ | ⟨hk', h⟩ | ⟨hk', h⟩ | ⟨hk', h⟩ | ⟨hk', h⟩ | ⟨hk', h⟩ | ⟨hk', h⟩
